@@ -21,7 +21,8 @@ def short(k):
 
 
 class Audit:
-    def __init__(self, facts, cgens=None, tgens=None, max_paths=200000):
+    def __init__(self, facts, cgens=None, tgens=None, max_paths=200000, invariants_for=None):
+        self.invariants_for = invariants_for      # body -> {expression: (lo, hi)}: type invariants another rule establishes
         self.f = facts
         self.cgens = cgens or {}
         self.tgens = tgens or {}
@@ -74,6 +75,8 @@ class Audit:
             standalone = not (private and k in self.inlined and k not in self.called and k not in roots)
             for se, paths in lst:
                 rg = ranges.Ranger(self.f, se.types)
+                if self.invariants_for is not None:
+                    rg.invariants = self.invariants_for(b) or None
                 for p in paths:
                     self.audit_path(b, p, rg, standalone)
         return self
